@@ -2,6 +2,9 @@ module harness
 
 go 1.18
 
-require github.com/pip-services3-gox/pip-services3-expressions-gox v0.0.0
+require (
+	github.com/pip-services3-gox/pip-services3-commons-gox v1.0.8
+	github.com/pip-services3-gox/pip-services3-expressions-gox v0.0.0
+)
 
 replace github.com/pip-services3-gox/pip-services3-expressions-gox => /repo
